@@ -62,6 +62,13 @@ pub fn cents_f32(c: i64) -> f32 {
     cents_text(c).parse::<f32>().unwrap()
 }
 
+/// the f32 the library parses from the 4-decimal text of `x` ten-thousandths of a kWh
+pub fn u4_f32(x: i64) -> f32 {
+    let neg = x < 0;
+    let a = x.unsigned_abs();
+    format!("{}{}.{:04}", if neg { "-" } else { "" }, a / 10_000, a % 10_000).parse::<f32>().unwrap()
+}
+
 /// shortest round-trip text of an f32 (never scientific notation)
 pub fn f32_text(v: f32) -> String {
     if v == 0.0 {
@@ -164,6 +171,8 @@ pub struct BParams {
     /// also generate auxiliary-bearing systems whose only CONSUMO service is NEPB or COGEN
     /// (accepted by the parser; outside C06's claim, inside C08's and C16's)
     pub aux_non_epb: bool,
+    /// values with four decimals (off for C18, whose bound assumes two-decimal inputs)
+    pub fine: bool,
 }
 
 impl BParams {
@@ -183,6 +192,7 @@ impl BParams {
             env_heavy: false,
             cogen_heavy: false,
             aux_non_epb: false,
+            fine: true,
         }
     }
 }
@@ -204,6 +214,24 @@ pub enum VG {
     RelExpMinusN,
     /// whatever surplus of the step is not yet absorbed by non-EPB uses, plus some cents
     RelSurplusPlus(u32),
+    /// a value with four decimals, in ten-thousandths of a kWh (>= 0.01 kWh)
+    Fine(u32),
+    /// the EPB use so far plus / minus a few ten-thousandths (production that misses the use by a hair)
+    RelNearU(i8),
+    /// the production so far plus / minus a few ten-thousandths
+    RelNearP(i8),
+}
+
+/// `vg` plus values with four decimals (the property's domain is "zero or >= 0.01 kWh", not
+/// "two decimals"): 8 % of the values
+pub fn vg_fine(huge_kwh: u32) -> BoxedStrategy<VG> {
+    prop_oneof![
+        92 => vg(huge_kwh),
+        4 => (100u32..=1_000_000).prop_map(VG::Fine),
+        2 => (-9i8..=9).prop_map(VG::RelNearU),
+        2 => (-9i8..=9).prop_map(VG::RelNearP),
+    ]
+    .boxed()
 }
 
 pub fn vg(huge_kwh: u32) -> BoxedStrategy<VG> {
@@ -435,14 +463,14 @@ fn lk(p: &BParams, no_elec: bool, only_srv: Option<Srv>) -> BoxedStrategy<LK> {
 }
 
 fn lg(n: usize, p: &BParams, no_elec: bool, only_srv: Option<Srv>) -> BoxedStrategy<LG> {
-    (lk(p, no_elec, only_srv), vec(vg(p.huge_kwh), n), any::<u8>(), comment_s())
+    (lk(p, no_elec, only_srv), vec(if p.fine { vg_fine(p.huge_kwh) } else { vg(p.huge_kwh) }, n), any::<u8>(), comment_s())
         .prop_map(|(kind, vals, pos, comment)| LG { kind, vals, pos, comment })
         .boxed()
 }
 
 fn used_only_lg(n: usize, p: &BParams, no_elec: bool, srv: Srv) -> BoxedStrategy<LG> {
     let cars = weighted_cars(p, no_elec);
-    (select(cars), vec(vg(p.huge_kwh), n), any::<u8>(), comment_s())
+    (select(cars), vec(if p.fine { vg_fine(p.huge_kwh) } else { vg(p.huge_kwh) }, n), any::<u8>(), comment_s())
         .prop_map(move |(c, vals, pos, comment)| LG { kind: LK::Used(srv, c), vals, pos, comment })
         .boxed()
 }
@@ -467,7 +495,7 @@ fn sysg(n: usize, p: &BParams, no_elec: bool) -> BoxedStrategy<SysG> {
     let prods_s: BoxedStrategy<Vec<(Src, Vec<VG>, u8)>> = if srcs.is_empty() {
         Just(vec![]).boxed()
     } else {
-        vec((select(srcs), vec(vg(huge), n), any::<u8>()), 0..=1).boxed()
+        vec((select(srcs), vec(if p.fine { vg_fine(huge) } else { vg(huge) }, n), any::<u8>()), 0..=1).boxed()
     };
     let single_srvs: Vec<Srv> = if p.aux_non_epb {
         let mut v = EPB_SRVS.to_vec();
@@ -654,6 +682,24 @@ impl Acc {
             VG::RelN => nn,
             VG::RelExpMinusN => ((p - u).max(0) - nn).abs(),
             VG::RelSurplusPlus(c) => ((p - u).max(0) - nn).max(0) + *c as i64,
+            VG::Fine(x) => *x as i64 / 100,
+            VG::RelNearU(_) => u,
+            VG::RelNearP(_) => p,
+        }
+    }
+    /// the value in ten-thousandths of a kWh; never in (0, 0.01 kWh)
+    fn val4(&self, g: &VG, car: Car, t: usize) -> i64 {
+        let (u, p) = (self.u[car.idx()][t], self.p[car.idx()][t]);
+        let x = match g {
+            VG::Fine(x) => *x as i64,
+            VG::RelNearU(d) => u * 100 + *d as i64,
+            VG::RelNearP(d) => p * 100 + *d as i64,
+            other => self.val(other, car, t) * 100,
+        };
+        if x < 100 {
+            0
+        } else {
+            x
         }
     }
 }
@@ -788,7 +834,8 @@ pub fn resolve(g: &BuildingG) -> Building {
                 LK::Used(sv, c) => (Kind::Used { srv: *sv, car: *c }, *c),
                 LK::Prod(src) => (Kind::Prod { src: *src }, src.carrier()),
             };
-            let cents: Vec<i64> = (0..n).map(|t| acc.val(&l.vals[t], car, t)).collect();
+            let u4: Vec<i64> = (0..n).map(|t| acc.val4(&l.vals[t], car, t)).collect();
+            let cents: Vec<i64> = u4.iter().map(|x| (x + 50) / 100).collect();
             for t in 0..n {
                 match &l.kind {
                     LK::Used(sv, _) if sv.is_epb() => acc.u[car.idx()][t] += cents[t],
@@ -799,7 +846,7 @@ pub fn resolve(g: &BuildingG) -> Building {
             }
             items.push((
                 l.pos,
-                Line { id, kind, vals: cents.iter().map(|c| cents_f32(*c)).collect(), comment: l.comment.clone() },
+                Line { id, kind, vals: u4.iter().map(|x| u4_f32(*x)).collect(), comment: l.comment.clone() },
             ));
         }
         for (av, pos) in &s.aux {
